@@ -233,6 +233,15 @@ func (c *Coop) hookLock(mu interface{}, kind int, site string) {
 }
 
 func (c *Coop) hookUnlock(mu interface{}, kind int, site string) {
+	if c.cur != nil && c.cur.gid == curGID() && kind == xsimrt.KLock && !c.abort {
+		c.mu.Lock()
+		o := c.owners(mu)
+		w := o.writer
+		c.mu.Unlock()
+		if w != 0 && w != c.cur.id+1 {
+			panic(fmt.Sprintf("coop: task %s unlocks %s which the scheduler believes is held by task %s (trace %s)", c.cur.name, site, c.tasks[w-1].name, c.trace.String()))
+		}
+	}
 	realUnlock(mu, kind)
 	if c.cur == nil || c.cur.gid != curGID() {
 		return
